@@ -57,6 +57,7 @@ class Pi(schemes.interface.inverted_index_sse.InvertedIndexSSE):
             N += random_id_list_len
 
         T_list = [[] for _ in range(t + 1)]  # t+1 empty lists T0, T1, ... , Tt
+        ni_size = math.ceil((t + 1) / 8)  # bytes needed to represent |DB(w)| <= 2^t
         S = []
 
         for keyword in padded_database:
@@ -74,8 +75,7 @@ class Pi(schemes.interface.inverted_index_sse.InvertedIndexSSE):
             cipher_list = [self.config.ske.Encrypt(Ki, identifier) for identifier in padded_database[keyword]]
             di = b"".join(cipher_list)
 
-            # math.ceil(t / 8) --> max_bytes represent |DB(w)|
-            ni_prime = self.config.ske.Encrypt(Ki_prime, int_to_bytes(ni, math.ceil(t / 8)))
+            ni_prime = self.config.ske.Encrypt(Ki_prime, int_to_bytes(ni, ni_size))
             T_list[pi].append((li, di))
             S.append((li_prime, ni_prime))
 
